@@ -227,6 +227,8 @@ def main(chk):
     pyk = dict((c.name, c) for c in c08.kernel_classes(M.py(c08.KER)))
     c08.rule_cutoff(chk, pyk)
     c08.rule_monotone(chk, pyk)
+    # DWIJ is what gradient() writes into a per-thread scratch buffer: it is the radial gradient, written in full for every pair (rule shared with C08)
+    c08.rule_gradient_form(chk, pyk)
     # "every neighbour algorithm": the sums only cancel when j is a neighbour of i exactly when i is one of j - the symmetric acceptance test, no candidate dropped
     # on one side only, the list post-processing keeps every entry (rules shared with C01 / C05); pair terms are computed in per-thread scratch (shared with C02)
     def load(name):
